@@ -129,7 +129,12 @@ func (n *RaftNode) AddBulk(bulk [][]byte) ([]*balloon.Snapshot, error) {
 		return nil, err
 	}
 
-	snapshotBulk := resp.(*fsmResponse).val.([]*balloon.Snapshot)
+	fsmResp := resp.(*fsmResponse)
+	if fsmResp.err != nil {
+		// the state machine refused the entry (e.g. 'state already applied')
+		return nil, fsmResp.err
+	}
+	snapshotBulk := fsmResp.val.([]*balloon.Snapshot)
 
 	//Send snapshot to the snapshot channel
 	// TODO move this to an upper layer (shard manager?)
